@@ -75,10 +75,10 @@ def option_sets(rng):
 
 def batcher_cases(rng, n):
     out = []
-    base = batchercomp.gen(rng, n, 6, behaviours=False, keys=3, durations=True)
+    base = batchercomp.gen(rng, n, 6, behaviours=False, keys=3, durations=True) + batchercomp.trickle_burst(rng, n // 3)
     osets = option_sets(rng)
     for i, sc in enumerate(base):
-        opts = osets[i % len(osets)]
+        opts = osets[i % len(osets)] if i < n else dict(sc['opts'])
         eff = dict(DEFAULTS)
         eff.update(opts)
         sc = dict(sc)
